@@ -39,6 +39,7 @@ pub struct ItsBinder {
     pub accts: Vec<String>,
     pub fresh: u32,
     pub sac_meta: Option<(Vec<u8>, Vec<u8>, u32)>,
+    pub example: Address,
 }
 
 fn gw_inst() -> J {
@@ -65,6 +66,7 @@ impl ItsBinder {
             accts: { let mut a = jstrs(inst, "Accts"); a.sort(); a },
             fresh: 0,
             sac_meta: None,
+            example: ph.clone(),
         };
         let env = b.g.cx.env.clone();
         let gw = b.g.gw.clone().unwrap();
@@ -85,6 +87,8 @@ impl ItsBinder {
         let its_other_chain = mk_its("another-chain");
         b.g.cx.bind("its", &b.its.clone());
         b.dry = env.register(Dry, ());
+        b.example = env.register(example::Example, (gw.clone(), b.gs.clone()));
+        b.g.cx.bind("ex", &b.example.clone());
         let app = env.register(AcceptingApp, ());
         b.g.cx.bind("app", &app);
         let trap = env.register(TrappingApp, ());
@@ -391,7 +395,9 @@ impl ItsBinder {
                 Some(n) => n,
                 None => continue,
             };
-            if c == &gw && name == "contract_called" {
+            if c == &gw && name == "contract_called" && t.get(1).and_then(|v| Address::try_from_val(&env, &v).ok()).as_ref() == Some(&self.example) {
+                out.push(json!({"k": "app_called", "app": "ex"}));
+            } else if c == &gw && name == "contract_called" {
                 let caller = t.get(1).and_then(|v| Address::try_from_val(&env, &v).ok());
                 let chain = t.get(2).and_then(|v| SStr::try_from_val(&env, &v).ok()).map(|s| sstr_to_string(&s)).unwrap_or_default();
                 let addr = t.get(3).and_then(|v| SStr::try_from_val(&env, &v).ok()).map(|s| sstr_to_string(&s)).unwrap_or_default();
@@ -408,7 +414,8 @@ impl ItsBinder {
             } else if c == &self.gs && name == "gas_paid" {
                 let spender = t.get(5).and_then(|v| Address::try_from_val(&env, &v).ok()).map(|a| self.g.cx.name_of(&a)).unwrap_or("?".into());
                 let tok = t.get(6).and_then(|v| Token::try_from_val(&env, &v).ok());
-                let sender_ok = t.get(1).and_then(|v| Address::try_from_val(&env, &v).ok()).as_ref() == Some(&self.its);
+                let sender = t.get(1).and_then(|v| Address::try_from_val(&env, &v).ok());
+                let sender_ok = sender.as_ref() == Some(&self.its) || sender.as_ref() == Some(&self.example);
                 let amt = tok.as_ref().map(|x| x.amount as i64).unwrap_or(-999);
                 let tok_ok = tok.map(|x| x.address == self.gas_token).unwrap_or(false);
                 out.push(json!({"k": "gas_paid", "spender": if sender_ok && tok_ok { spender } else { "BadGasEvent".into() }, "amt": amt}));
@@ -669,6 +676,22 @@ impl ItsBinder {
                 let args: SVec<Val> = svec![&env, minter.into_val(&env), to.into_val(&env), amt.into_val(&env)];
                 let auths: Vec<(Address, Inv)> = auth.iter().map(|n| (self.g.cx.addr(n), Inv::new(&tok, "mint_from", args.clone()))).collect();
                 let r = self.g.cx.call_auth(&auths, &tok, "mint_from", args);
+                self.finish(r, unit())
+            }
+            "ExampleSend" => {
+                let caller = self.g.cx.addr(act["caller"].as_str().unwrap());
+                let gas_amt = act["gas"].as_i64().unwrap() as i128;
+                let gas = self.gas_token_val(act["gas"].as_i64().unwrap());
+                let (chain, addr, msg) = (SStr::from_str(&env, "ethereum"), SStr::from_str(&env, "0xapp"), Bytes::from_slice(&env, b"hello"));
+                let ex = self.example.clone();
+                let args: SVec<Val> = svec![&env, caller.into_val(&env), chain.into_val(&env), addr.into_val(&env), msg.into_val(&env), gas.into_val(&env)];
+                let pg_args: SVec<Val> = svec![&env, ex.into_val(&env), chain.into_val(&env), addr.into_val(&env), msg.into_val(&env), caller.into_val(&env), gas.into_val(&env), Bytes::new(&env).into_val(&env)];
+                let sub: SVec<Val> = svec![&env, caller.into_val(&env), self.gs.into_val(&env), gas_amt.into_val(&env)];
+                let auths: Vec<(Address, Inv)> = auth
+                    .iter()
+                    .map(|n| (self.g.cx.addr(n), Inv::new(&ex, "send", args.clone()).with(Inv::new(&self.gs.clone(), "pay_gas", pg_args.clone()).with(Inv::new(&self.gas_token.clone(), "transfer", sub.clone())))))
+                    .collect();
+                let r = self.g.cx.call_auth(&auths, &ex, "send", args);
                 self.finish(r, unit())
             }
             "SetFakeMeta" => {
